@@ -11,6 +11,7 @@ CONSTANTS
  MaxServes = 1
  MaxApplies = 1
  Faults = FALSE
+ KeepHist = TRUE
  MaxFaults = 1
  Mutations = {"resetOwn", "resetOther"}
 INVARIANT LogNoRepeats
